@@ -398,6 +398,51 @@ def run(ctx, build):
                 built = type(e).__name__
             if (built == 'ok') != want or (not want and built != 'TypeError'):
                 violate('USIDataset.__init__', 'anonymous_dataset', 'wrapper_%s_but_rules_%s' % (built, 'hold' if want else 'fail'), label, m)
+        # ---- valid by every structural rule, yet unusual: a side with NO points; positions that do not form a complete grid (an
+        # aborted scan: no N-D form exists).  The wrapper must be constructible for them in BOTH views.
+        def hand_made(gname, main_shape, pi, si):
+            g = f.create_group(gname)
+            mk = lambda nm, arr, labs, dt: (lambda d: (d.attrs.__setitem__('labels', np.array(labs, dtype='S')),
+                                                      d.attrs.__setitem__('units', np.array(['u'] * len(labs), dtype='S')), d)[-1])(
+                g.create_dataset(nm, data=np.asarray(arr, dtype=dt).reshape(np.asarray(arr).shape)))
+            kp, ks = np.asarray(pi).shape[1], np.asarray(si).shape[0]
+            a = mk('Position_Indices', pi, ['p%d' % i for i in range(kp)], np.uint32)
+            b = mk('Position_Values', pi, ['p%d' % i for i in range(kp)], np.float32)
+            c = mk('Spectroscopic_Indices', si, ['s%d' % i for i in range(ks)], np.uint32)
+            d = mk('Spectroscopic_Values', si, ['s%d' % i for i in range(ks)], np.float32)
+            m = g.create_dataset('Raw_Data', data=np.zeros(main_shape))
+            m.attrs['quantity'], m.attrs['units'] = 'Q', 'U'
+            for nm, ds in (('Position_Indices', a), ('Position_Values', b), ('Spectroscopic_Indices', c), ('Spectroscopic_Values', d)):
+                m.attrs[nm] = ds.ref
+            return m
+        unusual = [('no_positions', hand_made('unusual_0', (0, 3), np.zeros((0, 1)), [[0, 1, 2]])),
+                   ('no_spectral_points', hand_made('unusual_1', (2, 0), [[0], [1]], np.zeros((1, 0)))),
+                   ('incomplete_position_grid', hand_made('unusual_2', (3, 2), [[0, 0], [1, 0], [0, 1]], [[0, 1]])),
+                   ('incomplete_spectroscopic_grid', hand_made('unusual_3', (2, 3), [[0], [1]], [[0, 1, 0], [0, 0, 1]]))]
+        for label, obj in unusual:
+            d = describe(f, obj, [])
+            want = is_main_spec(d)
+            m = {'corruptions': [label], 'descriptor': d, 'rules_hold': want}
+            hist['unusual_valid_objects'] = hist.get('unusual_valid_objects', 0) + int(want)
+            try:
+                with common.quiet():
+                    r = check_if_main(obj)
+                if bool(r) != want:
+                    violate('hdf_utils.check_if_main', 'unusual_valid_dataset', 'answer_differs_from_structural_definition', '%s -> %s' % (label, r), m)
+            except Exception as e:
+                violate('hdf_utils.check_if_main', 'unusual_valid_dataset', 'raises', '%r for %s' % (e, label), m)
+            for sd in (False, True):
+                try:
+                    with common.quiet():
+                        usid.USIDataset(obj, sort_dims=sd)
+                    built = 'ok'
+                except TypeError:
+                    built = 'TypeError'
+                except Exception as e:
+                    built = type(e).__name__
+                if (built == 'ok') != want or (not want and built != 'TypeError'):
+                    violate('USIDataset.__init__', 'unusual_valid_dataset', 'wrapper_%s_but_rules_%s' % (built, 'hold' if want else 'fail'),
+                            '%s sort_dims=%s' % (label, sd), dict(m, sort_dims=sd))
         # ---- recursive search over trees mixing valid, corrupted and unrelated objects
         n_trees = 12 if ctx.quick() else 150
         for ti in range(n_trees):
